@@ -677,3 +677,15 @@ Definition first_pre_is_service (r : route) : bool :=
   | p :: _ => String.eqb p "withTSAndSampleService" || String.eqb p "withTracesService"
   | [] => false
   end.
+
+(* ------------------------------------------------------------------------------------------ *)
+(** * 7. How many bytes a request makes the server read: Content-Encoding without a limit on the decoded size *)
+
+(* WithOverallContextMiddleware: r.Body = gzip.NewReader(r.Body) / snappy.NewReader(r.Body); the routes then read the
+   DECODED stream whole (io.ReadAll in withUnsnappyRequest / withBufferedBody / the OTLP PreRequest; jx buffers a
+   whole string).  deflate expands at most 1032:1; body_len, decoded_len in bytes. *)
+Definition gzip_max_ratio : Z := 1032.
+Definition bytes_read (ce : string) (body_len decoded_len : Z) : Z :=
+  if String.eqb ce "" then body_len else decoded_len.
+(* the allocation the property's oracle tolerates for a body of that size (spec_ok), in bytes *)
+Definition alloc_bound_bytes (body_len : Z) : Z := (1024 * alloc_bound_kb (body_len / 1024))%Z.
